@@ -569,6 +569,18 @@ def oracle_conv(ctx, budget):
                 if sts != {'ok'} or not np.array_equal(np.asarray(r[1]), a * np.asarray(r1[1]) + b * np.asarray(r2[1])):
                     ctx.fail('padded_convolve:not-linear', f'padded_convolve(N={n}, M={m}, mode={mode!r}) of {a}*y1 + {b}*y2 is not {a}*out1 + {b}*out2', case)
                     found += 1
+                # C18_convolve_kernel_linear: same data, a*k + b*k2 (exact for the index modes)
+                k2 = np.array([lrng.randint(-3, 9) for _ in range(m)], dtype=np.int64)
+                q1, q2, q = (call(utils.padded_convolve, y1, kk, mode=mode) for kk in (k, k2, a * k + b * k2))
+                ctx.case(('o-conv-klin', n, m, mode), nontrivial=True, kind='oracle:conv:kernel-linear')
+                case = {'kind': 'conv', 'data': y1.tolist(), 'kernel': (a * k + b * k2).tolist(), 'mode': mode,
+                        'k1': k.tolist(), 'k2': k2.tolist(), 'a': a, 'b': b}
+                sts = {q1[0], q2[0], q[0]}
+                if sts == {'err'}:
+                    continue
+                if sts != {'ok'} or not np.array_equal(np.asarray(q[1]), a * np.asarray(q1[1]) + b * np.asarray(q2[1])):
+                    ctx.fail('padded_convolve:not-linear-in-kernel', f'padded_convolve(N={n}, M={m}, mode={mode!r}) with {a}*k1 + {b}*k2 is not {a}*out1 + {b}*out2', case)
+                    found += 1
     return found
 
 
